@@ -24,6 +24,14 @@ import (
 // nativeFirst: functions with a symbolic model that are nevertheless called
 // natively when every argument is concrete (fast path; same result).
 var nativeFirst = map[string]any{
+	// concrete runes get the real Unicode tables (the symbolic models are ASCII-only)
+	"unicode.IsSpace":                    unicode.IsSpace,
+	"unicode.IsUpper":                    unicode.IsUpper,
+	"unicode.IsLower":                    unicode.IsLower,
+	"unicode.IsDigit":                    unicode.IsDigit,
+	"unicode.IsLetter":                   unicode.IsLetter,
+	"unicode.ToLower":                    unicode.ToLower,
+	"unicode.ToUpper":                    unicode.ToUpper,
 	"strings.Contains":                   strings.Contains,
 	"strings.ContainsAny":                strings.ContainsAny,
 	"strings.ContainsRune":               strings.ContainsRune,
